@@ -102,3 +102,42 @@ Theorem C10_jcd_njobs_refuted :
   end.
 Proof. split; [vm_compute; reflexivity|]. split; [vm_compute; reflexivity|]. vm_compute. repeat split. Qed.
 Print Assumptions C10_jcd_njobs_refuted.
+
+(* token_ordering.py itself (GENERATED code, regenerated every run) computes exactly the model's
+   ranks: frequency first, then the token -- no dependence on row order, dict order or hashing *)
+From SSJ Require Import TokenOrderingGen OrderingGenFacts.
+Theorem C10_generated_token_order_is_model :
+  forall lists toks,
+  order_using_token_ordering (PList (map PInt toks))
+    (gen_token_ordering_for_lists (PList (map (fun l => PList (map PInt l)) lists)))
+  = PList (map PInt (order (List.concat lists) toks)).
+Proof. exact order_using_gen_lists. Qed.
+Print Assumptions C10_generated_token_order_is_model.
+Theorem C10_generated_table_token_order_is_model :
+  forall tables attr_list smt tokenize tk toks,
+  tokenizes tables attr_list tokenize tk ->
+  order_using_token_ordering (PList (map PInt toks))
+    (gen_token_ordering_for_tables (PList (map PList tables)) attr_list smt tokenize)
+  = PList (map PInt (order (tab_tokens tk 0 tables) toks)).
+Proof. exact order_using_gen_tables. Qed.
+Print Assumptions C10_generated_table_token_order_is_model.
+
+(* the five set-similarity joins at API level, NO hypothesis about outputs: any two n_jobs / cpu
+   counts give the same multiset of rows -- exactly for overlap / overlap-coefficient, with gray
+   pairs set aside for Jaccard / cosine / Dice; same for permuted rows *)
+From SSJ Require Import JoinSpec MetaSpec Laws ApiJoinSpec ModelScores ModelLaws.
+Theorem C10_set_joins_njobs :
+  forall c n1 k1 n2 k2 o1 o2,
+  valid_join_case c -> j_with_score c = true -> 1 <= k1 -> 1 <= k2 ->
+  api_join (with_njobs c n1 k1) = Some o1 -> api_join (with_njobs c n2 k2) = Some o2 ->
+  same_rows_nongray_spec c o1 o2 = true /\ (no_gray_case c = true -> same_rows_spec c o1 o2 = true).
+Proof. exact C10_model_njobs. Qed.
+Print Assumptions C10_set_joins_njobs.
+Theorem C10_set_joins_rows :
+  forall c L' R' n k o1 o2,
+  valid_join_case c -> j_with_score c = true -> 1 <= k ->
+  Permutation (j_L c) L' -> Permutation (j_R c) R' ->
+  api_join c = Some o1 -> api_join (with_rows (with_njobs c n k) L' R') = Some o2 ->
+  same_rows_nongray_spec c o1 o2 = true /\ (no_gray_case c = true -> same_rows_spec c o1 o2 = true).
+Proof. exact C10_model_rows. Qed.
+Print Assumptions C10_set_joins_rows.
